@@ -533,6 +533,9 @@ def _check_anchors(part, loops, bm):
             raise LostAnchor('fn %s: loop %d not found (%d loops)' % (part['qual'], n, len(loops)))
         if lp['kv'].get('iter') and loops[n - 1][2] != 'for':
             raise LostAnchor('fn %s: loop %d is not a for loop' % (part['qual'], n))
+        if not lp['kv'].get('iter') and loops[n - 1][2] == 'for':
+            # invariants written for a `while` / `loop` (they talk about the loop's own counter) do not fit a `for` loop
+            raise LostAnchor('fn %s: loop %d became a for loop (its invariants were written for a while loop)' % (part['qual'], n))
     for at in part['ats']:
         w = at['where']
         if w[0] == 'exec':
